@@ -9,3 +9,13 @@ PART = {
         "assumptions": ["math/big arithmetic is the reference", "periods are whole seconds (as the system produces them)"],
     },
 }
+
+PART["C18"] = {
+    "runs": [{"name": "pure", "pkg": P, "run": "^TestVF_C18", "timeout": "30m", "timeout_thorough": "90m", "race_thorough": False}],
+    "rule": "operation histories (put/get/last/del/len/cursor first-next scan/seek+next/cursor last) run on the real bolt-trimmed (chained and unchained context), "
+            "bolt-untrimmed and memdb ring stores, every answer compared with a reference sorted map: exhaustive over all sequences up to length 3 (quick) / 4 (thorough) on rounds 0..3, "
+            "seeded random histories of 50-400 operations with gaps/deletions/re-puts/re-opens, memdb cursor steps interleaved with modifications, and concurrent get/put/del histories "
+            "checked with porcupine per round; non-trivial = every history (each contains at least one mutating and one reading op by construction of the alphabet is NOT guaranteed, so distinct = distinct (back-end, operation sequence))",
+    "assumptions": ["bbolt and the Go map/sort reference are trusted", "postgres back-end cannot be started offline: not covered",
+                    "Seek(absent round) is only required to return a correctly labelled beacon or nothing (the statement fixes nothing else)"],
+}
